@@ -58,7 +58,7 @@ theorem c15_try_merge_is_join (a b c : Flags) :
   · rcases a with _ | a <;> rcases b with _ | b <;> rcases c with _ | c <;>
       (try cases a) <;> (try cases b) <;> (try cases c) <;> rfl
 
-theorem apply_flagVW {ρ : Type} (f : Mode) (w : VWriter ρ) (c : VCall) :
+theorem apply_flagVW {ρ : Type} (f : Flags) (w : VWriter ρ) (c : VCall) :
     VCall.apply (flagVW f w) c = VCall.apply w (c.forceFlag f) := by
   cases c with
   | metric m => simp [VCall.apply, flagVW, VCall.forceFlag, tryMerge_eq_join]
@@ -200,7 +200,7 @@ theorem c15_value_dims_after_existing (v : Val) (d : Dims) :
   rw [sem_eq_spec, sem_eq_spec]; rfl
 
 /-- Forced flags are merged (join of `none < HighStorageResolution < NoMetric`) with the value's own. -/
-theorem c15_value_flags_merged (v : Val) (f : Mode) :
+theorem c15_value_flags_merged (v : Val) (f : Flags) :
     (Val.forceFlag v f).sem = v.sem.map (VCall.forceFlag f) := by
   rw [sem_eq_spec, sem_eq_spec]; rfl
 
@@ -302,7 +302,7 @@ theorem sem_globalDims (d : Dims) (deny : List Str) :
   · simp [h]
   · simp [h, sem_eq_spec, Val.spec]
 
-theorem sem_flag (f : Mode) :
+theorem sem_flag (f : Flags) :
     Semantic (fun _ v => Val.forceFlag (Val.ref v) f) (fun _ => VCall.forceFlag f) := by
   intro n v; simp [sem_eq_spec, Val.spec]
 
@@ -310,7 +310,7 @@ theorem boxedEW_eq {σ : Type} (w : EWriter σ) :
     fromDynEW (toDynEW (refMutEW w)) = mapEW (fun _ v => Val.dyn v) w := rfl
 theorem dimsEW_eq {σ : Type} (d : Dims) (w : EWriter σ) :
     dimsEW d (refMutEW w) = mapEW (fun _ v => Val.withDims v d) w := rfl
-theorem flagEW_eq {σ : Type} (f : Mode) (w : EWriter σ) :
+theorem flagEW_eq {σ : Type} (f : Flags) (w : EWriter σ) :
     flagEW f w = mapEW (fun _ v => Val.forceFlag (Val.ref v) f) w := rfl
 theorem globalDimsEW_eq {σ : Type} (d : Dims) (deny : List Str) (w : EWriter σ) :
     globalDimsEW d deny (refMutEW w)
@@ -462,7 +462,7 @@ theorem c15_global_dims_deny (e : Ent) (d : Dims) (deny : List Str) :
   simp [Ent.log]
 
 /-- `ForceFlag<E, FLAGS>` as an entry: every metric's flags are joined with the forced flag. -/
-theorem c15_flags_merged (e : Ent) (f : Mode) :
+theorem c15_flags_merged (e : Ent) (f : Flags) :
     (Ent.forceFlag e f).log = e.log.map (Call.mapVal fun _ => VCall.forceFlag f) ∧
     (Ent.forceFlag e f).sampleGroup = e.sampleGroup := by
   refine ⟨?_, rfl⟩
@@ -525,7 +525,7 @@ theorem wrapper_sg (w : Wrapper) (e : Ent) : (w.apply e).sampleGroup = w.specSG 
 /-- The stream adapters: `MergeGlobals` puts the global fields FIRST; `MergeGlobalDimensions` (with or
 without its empty-dimension shortcut) appends the global dimensions except on deny-listed names;
 a `ForceFlag` stream joins flags. All three preserve the entry's sample group (globals' first). -/
-theorem c15_stream_adapters (e g : Ent) (d : Dims) (deny : List Str) (f : Mode) :
+theorem c15_stream_adapters (e g : Ent) (d : Dims) (deny : List Str) (f : Flags) :
     ((Wrapper.streamMergeGlobals g).apply e).log = g.log ++ e.log ∧
     ((Wrapper.streamGlobalDims d deny).apply e).log
       = e.log.map (Call.mapVal fun n c => if n ∈ deny then c else VCall.addDims d c) ∧
@@ -604,7 +604,7 @@ theorem skeleton_addDims (d : Dims) (n : Str) (c : VCall) :
     Call.skeleton (.val n (some (c.addDims d))) = Call.skeleton (.val n (some c)) := by
   cases c <;> rfl
 
-theorem skeleton_forceFlag (f : Mode) (n : Str) (c : VCall) :
+theorem skeleton_forceFlag (f : Flags) (n : Str) (c : VCall) :
     Call.skeleton (.val n (some (c.forceFlag f))) = Call.skeleton (.val n (some c)) := by
   cases c <;> rfl
 
@@ -658,14 +658,21 @@ def exEntry : Ent :=
 def exGlobals : Ent := .base [.value [90] (.leaf (some (.string [122])))] [([113], [114])]
 
 example :
-    (applyAll [.withDims [([97], [98])], .boxed, .forceFlag .noMetric, .globalDims [([99], [100])] [[65]],
+    (applyAll [.withDims [([97], [98])], .boxed, .forceFlag (some .noMetric), .globalDims [([99], [100])] [[65]],
                .streamMergeGlobals exGlobals] exEntry).log
       = [.val [90] (some (.string [122])), .ts 5, .cfg [83],
          .val [65] (some (.metric ⟨[.u 1, .f 4607182418800017408], [110], [([107], [118]), ([97], [98])], some .noMetric⟩)),
          .val [66] (some (.string [97])), .val [67] (some (.error [98])), .val [68] none] ∧
-    (applyAll [.withDims [([97], [98])], .boxed, .forceFlag .noMetric, .globalDims [([99], [100])] [[65]],
+    (applyAll [.withDims [([97], [98])], .boxed, .forceFlag (some .noMetric), .globalDims [([99], [100])] [[65]],
                .streamMergeGlobals exGlobals] exEntry).sampleGroup
       = [([113], [114]), ([111], [112])] := by
+  decide
+
+/-- an empty forced flag keeps `NoMetric`; a real one below an empty one still applies -/
+example :
+    (applyAllV [.forceFlag (some .noMetric), .forceFlag none, .forceFlag (some .high), .forceFlag none]
+      (.leaf (some (.metric ⟨[.u 7], [110], [], none⟩)))).sem
+      = some (.metric ⟨[.u 7], [110], [], some .noMetric⟩) := by
   decide
 
 /-- `recEW` is a lawful writer, so `c15_compose` is not vacuous; and a value under
@@ -673,10 +680,33 @@ example :
 example : recEW.Lawful := recEW_lawful
 
 example :
-    (applyAllV [.withDims [([97], [98])], .forceFlag .high, .arc, .optSome, .dyn]
+    (applyAllV [.withDims [([97], [98])], .forceFlag (some .high), .arc, .optSome, .dyn]
       (.leaf (some (.metric ⟨[.u 7], [110], [([107], [118])], none⟩)))).sem
       = some (.metric ⟨[.u 7], [110], [([107], [118]), ([97], [98])], some .high⟩) := by
   decide
+
+theorem forceFlag_none (c : VCall) : VCall.forceFlag none c = c := by
+  cases c with
+  | metric m =>
+    rcases m with ⟨o, u, d, fl⟩
+    rcases fl with _ | fl
+    · rfl
+    · cases fl <;> rfl
+  | string s => rfl
+  | error e => rfl
+
+/-- A `ForceFlag` whose `FlagConstructor` yields `MetricFlags::empty()` (a switched-off flag) is
+transparent at value, entry and stream level: whatever flags the wrapped thing already carries —
+none, `HighStorageResolution`, `NoMetric` — survive unchanged. -/
+theorem c15_force_empty_flags_id (v : Val) (e : Ent) :
+    (Val.forceFlag v none).sem = v.sem ∧ (Ent.forceFlag e none).log = e.log ∧
+    ((Wrapper.streamForceFlag none).apply e).log = e.log := by
+  have hfun : (fun (_ : Str) => VCall.forceFlag none) = fun _ c => c := by
+    funext n c; exact forceFlag_none c
+  refine ⟨?_, ?_, ?_⟩
+  · rw [c15_value_flags_merged]; cases v.sem <;> simp [forceFlag_none]
+  · rw [(c15_flags_merged e none).1, hfun, mapVal_id]
+  · rw [wrapper_log]; simp only [Wrapper.specLog]; rw [hfun, mapVal_id]
 
 /-! ### Long-lived adapters are history independent -/
 
@@ -764,3 +794,4 @@ end Wrappers
 #print axioms Wrappers.c15_value_compose
 #print axioms Wrappers.c15_transformers_keep_skeleton
 #print axioms Wrappers.c15_adapters_history_independent
+#print axioms Wrappers.c15_force_empty_flags_id
